@@ -487,7 +487,9 @@ def cmp_inv(got, cov, scale):
         s2 = np.abs(cov) @ np.abs(g)
         d1 = np.abs(g @ cov - eye)
         d2 = np.abs(cov @ g - eye)
-        ok = bool(np.all(d1 <= rtol * s1 + ATOL_LINALG) and np.all(d2 <= rtol * s2 + ATOL_LINALG))
+        # the residual bound of an LU/QR-based inverse is norm-wise (componentwise |X||A| bounds do not hold where individual products
+        # cancel, e.g. with sources that vanish at some points): every element is held to rtol times the largest |X||A| element
+        ok = bool(np.all(d1 <= rtol * np.nanmax(s1) + ATOL_LINALG) and np.all(d2 <= rtol * np.nanmax(s2) + ATOL_LINALG))
     if ok:
         return "ok", None
     return "bad", {"cond": cond, "rtol": rtol, "max|inv@cov-I|": float(np.nanmax(d1)), "max|cov@inv-I|": float(np.nanmax(d2))}
